@@ -217,6 +217,10 @@ class Evaluator:
                 raise Unsupported("comparison of a line with a column")
             ka, kb = a.rank, b.rank
         elif isinstance(a, tuple) and isinstance(b, tuple) and a[0] == "file" and b[0] == "file":
+            if isinstance(op, (ast.Is, ast.IsNot)):
+                # file names of two spans are equal strings, not the same object (paths are built, not interned): identity does
+                # not hold even for equal names -- code that relies on `is` to recognise "same file" gets False here
+                return isinstance(op, ast.IsNot)
             if not isinstance(op, (ast.Eq, ast.NotEq)):
                 raise Unsupported("ordering comparison of files")
             ka, kb = a[1], b[1]
